@@ -40,6 +40,10 @@ def dirty_wrap(draw, strat):
     if draw(ints(0, 4)) == 0:
         case["cfg"] = dict(case["cfg"], dirty=draw(ints(1, 4)))
         case["classes"] = list(case.get("classes", [])) + ["dirty_object_memory"]
+    if draw(ints(0, 5)) == 0:
+        # fiber stack size requested from fiber_create (default 64 KiB): smaller, larger, not a multiple of 16 or of the page size
+        case["cfg"] = dict(case["cfg"], stack=draw(st.sampled_from([32768, 49153, 100000, 102400, 262144, 1000003])))
+        case["classes"] = list(case.get("classes", [])) + ["other_stack_size"]
     return case
 
 
@@ -172,7 +176,14 @@ def sem_case(draw, tier):
     for s in range(ns):
         cfg["sem_init%d" % s] = inits[s]
     classes = ["threads=%d" % threads, "late_poster" if poster else "no_late_poster", "value_near_2^k" if big else "small_value"]
-    return {"harness": "sem", "threads": threads, "cfg": cfg, "fibers": fibers, "classes": classes}
+    crowd = {}
+    if draw(ints(0, 29)) == 0:
+        # any number of fibers blocked on one semaphore
+        n = draw(st.sampled_from(CROWD_SIZES))
+        fibers[0].insert(0, op("semcrowd", draw(ints(0, ns - 1)), n))
+        classes.append(crowd_class(n))
+        crowd = crowd_limits(n)
+    return {**crowd, "harness": "sem", "threads": threads, "cfg": cfg, "fibers": fibers, "classes": classes}
 
 
 # --------------------------------------------------------------------------- C07
@@ -202,6 +213,13 @@ def rwlock_case(draw, tier):
         fibers.append(ops)
     case = {"harness": "rwlock", "threads": threads, "cfg": {"nrw": nl}, "fibers": fibers, "classes": ["threads=%d" % threads, bias]}
     if draw(ints(0, 29)) == 0:
+        # any number of readers queued behind a writer and admitted by one hand-off
+        n = draw(st.sampled_from(CROWD_SIZES))
+        f = fibers[draw(ints(0, nf - 1))]
+        f.insert(draw(ints(0, len(f))), op("rdcrowd", draw(ints(0, nl - 1)), n))
+        case["classes"].append("waiting_" + crowd_class(n))
+        case.update(crowd_limits(n))
+    elif draw(ints(0, 29)) == 0:
         # any number of simultaneous read holds
         n = draw(st.sampled_from(CROWD_SIZES + [4095, 4096, 4097]))
         f = fibers[draw(ints(0, nf - 1))]
